@@ -143,8 +143,12 @@ def run(ctx):
                     R.violation("TERM", FN + "|term|" + vv, "result term for value kind %s is not trunc_u64(f64(value)*f64(quantization)) (+) sext64(offset): %s" % (vv, why), file=b["span"]["f"], line=b["span"]["l"], function=FN, kind=None if "saturating" in why or "not" in why else "UNRECOGNISED-SHAPE")
         if rvars == {"None"}:
             n_none += 1
-            if kinds <= FP_KINDS and fps == {"Some"} and vals <= INT_VALUES:
-                R.violation("TAB", FN + "|none|" + ",".join(sorted(vals)), "to_real_value yields nothing for a fixed-point argument with data and integer value %s" % sorted(vals), file=b["span"]["f"], line=b["span"]["l"], function=FN, row=row)
+            # the exit's input set (a product of the variant sets it was narrowed to, possibly under further conditions)
+            # must not meet the domain on which a value is owed: fixed-point kind x data present x integer value
+            if (kinds & FP_KINDS) and "Some" in fps and (vals & INT_VALUES):
+                R.violation("TAB", FN + "|none|" + ",".join(sorted(vals & INT_VALUES)), "to_real_value can yield nothing for a fixed-point argument (kind %s) with data and integer value %s" % (sorted(kinds & FP_KINDS), sorted(vals & INT_VALUES)), file=b["span"]["f"], line=b["span"]["l"], function=FN, row=row)
+            else:
+                R.obligation("TAB", FN + "|none-row|%d" % n_none, "discharged", "None only outside fixed-point kind x data x integer value")
     R.extra["rows_some"] = n_some
     R.extra["rows_none"] = n_none
     R.floor("TAB", 10)
